@@ -76,6 +76,11 @@ def objects(a):
                         try:
                             if not (_same_angle(g2.lat, _ang(ga, nk2, l2)) and _same_angle(g2.lon, _ang(ga, nk2, o2)) and g2.ell_ht == h and g2.orth_ht == H):
                                 msgs.append('CoordTM.geo(%s) differs from grid2geo / loses heights: %r' % (nk2, g2))
+                            ex2 = llh2xyz(l2, o2, h if h is not None else 0, ell)
+                            en2 = (h - H) if (h is not None and H is not None) else None
+                            if max(abs(a_ - b_) for a_, b_ in zip((c2.xaxis, c2.yaxis, c2.zaxis), ex2)) > 3e-4 or c2.nval != en2:
+                                msgs.append('CoordTM.cart on %s differs from llh2xyz(grid2geo(...)) on that ellipsoid: %r, expected %r N=%r'
+                                            % ('GRS80' if ell is gc.grs80 else 'ANS', c2, tuple(float(v) for v in ex2), en2))
                             l3, o3, h3 = xyz2llh(c.xaxis, c.yaxis, c.zaxis, ell)
                             eo = (h3 - c.nval) if c.nval is not None else None
                             if not (_same_angle(g3.lat, _ang(ga, nk2, l3)) and _same_angle(g3.lon, _ang(ga, nk2, o3)) and g3.ell_ht == h3 and g3.orth_ht == eo):
